@@ -462,9 +462,13 @@ def r4_published(ck, F, tag, enc, census):
             if len(ta) != 2 or set(ta) != {LV, LF}:
                 continue
             sig = (ta[0], ta[1], c["method"])
-            key = "%s: %s.%s(%s)" % (b.path, ta[0].rsplit("::", 1)[1], c["method"], ta[1].rsplit("::", 1)[1])
-            if b.path in ENABLE_TEST_SITES:
-                seen_sites.add(b.path)
+            # a comparison inside a closure of a census function (e.g. `.map_or(false, |d| d.level >= level)`) belongs to it
+            site = b.path
+            while site not in ENABLE_TEST_SITES and "::{closure" in site:
+                site = site.rsplit("::{closure", 1)[0]
+            key = "%s: %s.%s(%s)" % (site, ta[0].rsplit("::", 1)[1], c["method"], ta[1].rsplit("::", 1)[1])
+            if site in ENABLE_TEST_SITES:
+                seen_sites.add(site)
                 if sig in ALLOWED_MIXED:
                     ck.ok("C19.R4", key, fn=b.path, detail="means level <= filter (or its negation)")
                 else:
